@@ -72,6 +72,9 @@ type Incarnation struct {
 	FailAt map[int]bool
 	// FailIf, when set, decides per call (index, described operations) whether it fails with an I/O error (not applied).
 	FailIf func(k int, ops []string) bool
+	// Before, when set, is called on the caller's goroutine before the call is counted or applied, with nothing of
+	// the simulated disk locked (a place where the harness may park the caller).
+	Before func(ops []string)
 }
 
 func (d *Disk) NewIncarnation(n int) *Incarnation { return &Incarnation{disk: d, N: n} }
@@ -151,6 +154,13 @@ func valString(key string, v []byte) string {
 
 func (c *diskClient) apply(ops ...*storage.Operation) error {
 	inc := c.inc
+	if inc.Before != nil {
+		descs := make([]string, len(ops))
+		for i, op := range ops {
+			descs[i] = opString(op)
+		}
+		inc.Before(descs)
+	}
 	inc.mu.Lock()
 	defer inc.mu.Unlock()
 	inc.calls++
